@@ -53,7 +53,7 @@ PROPS = {
                          "the raw int(amount) of a climb is an input of the policy model; the arithmetic that produces it is a model of its own (Model/Climber.v: Flocq's IEEE 754 binary32, "
                          "compared bit for bit with the real climb()), and c07_climb_amounts_meet_guard shows every amount it can produce meets the policy theorems' guard - that one theorem rests on the "
                          "standard library's real-number axioms (ClassicalDedekindReals.sig_forall_dec, sig_not_dec, Classical_Prop.classic, FunctionalExtensionality.functional_extensionality_dep), all others are axiom-free; "
-                         "modelled, not verified: the float32 initial window / protected capacities (read from the constructor); intrusive lists as Coq lists (justified: pointer-level model Model/DList.v proved to refine them, and compared with the real List); entry flags as booleans (justified: Model/Flags.v, bit table scraped from policy_flag.go); uint as Z mod 2^64"],
+                         "the constructors' float32 capacities are modelled too (init_window / init_main / init_protected, compared with NewTinyLfu / NewSlru for sizes up to 2^61; c07_constructor, same axioms); modelled, not verified: intrusive lists as Coq lists (justified: pointer-level model Model/DList.v proved to refine them, and compared with the real List); entry flags as booleans (justified: Model/Flags.v, bit table scraped from policy_flag.go); uint as Z mod 2^64"],
         "assumptions": ["costs are in 1..capacity (C06 covers rejection above capacity)"],
         "explanation": "structural invariant proved over all op sequences of the policy model; model replayed step by step against the real TinyLfu",
     },
